@@ -110,7 +110,8 @@ func iceserverUnmarshalOauth(val any) (*OAuthCredential, error) {
 }
 
 func (s *ICEServer) iceserverUnmarshalFields(fields map[string]any) error { //nolint:cyclop
-	if val, ok := fields["urls"]; ok {
+	// A nil URLs slice is marshaled as "urls":null; read it back as no URLs.
+	if val, ok := fields["urls"]; ok && val != nil {
 		u, err := iceserverUnmarshalUrls(val)
 		if err != nil {
 			return err
